@@ -16,7 +16,7 @@ TYPES = {"self": "Ref[HostnameTrieSet]", "hostname": "Str", "prefix": "Seq[Tok]"
 
 MODULE = {
     "file": "ural/classes/hostname_trie_set.py",
-    "bound": {"a": "Key"},
+    "bound": {"a": "Key", "p": "Seq[Tok]"},
     "classes": {
         "HostnameTrieSet": {
             "fields": {"__trie": "Ref[TrieDict]"},
@@ -58,6 +58,22 @@ MODULE = {
             "modifies": ["TrieDictNode.*", "TrieDict.N", "TrieDict.at", "TrieDict.V", "TrieDict.M", "HostnameTrieSet.A"],
             "ensures": ["HInv(self)", "self.A == store(old(self.A), key(uf('tok', 'Seq[Tok]', hostname)), True)"],
             "ghost_exit": ["self.A = store(self.A, key(uf('tok', 'Seq[Tok]', hostname)), True)"],
+        },
+        "HostnameTrieSet.__iter__": {
+            "types": dict(TYPES, g_P="Seq[Seq[Tok]]", g_i="Int"), "requires": ["HInv(self)"],
+            "yields": "Str", "returns": "Seq[Str]",
+            # one joined hostname per stored key (= per minimal added hostname, C09 lemmas), each stored key once
+            "ensures": [
+                "len(result) == len(g_P)",
+                "forall('m', implies(0 <= m and m < len(result), result[m] == uf('join_hostname', 'Str', g_P[m]) and self.__trie.V[key(g_P[m])]), result[m])",
+                "forall('m m2', implies(0 <= m and m < m2 and m2 < len(result), key(g_P[m]) != key(g_P[m2])), (g_P[m], g_P[m2]))",
+                "forall('m', implies(0 <= m and m < len(result), exists('p', self.__trie.V[key(p)] and result[m] == uf('join_hostname', 'Str', p), key(p))), result[m])",
+                "forall('k', implies(self.__trie.V[k], exists('m', 0 <= m and m < len(result) and exists('p', key(p) == k and result[m] == uf('join_hostname', 'Str', p), key(p)), result[m])), self.__trie.V[k])",
+            ],
+            "loops": {1: {"index": "g_i", "seq": "g_P", "invariant": [
+                "len(g_yielded) == g_i",
+                "forall('m', implies(0 <= m and m < g_i, g_yielded[m] == uf('join_hostname', 'Str', g_P[m])), g_yielded[m], g_P[m])",
+            ]}},
         },
         "HostnameTrieSet.match": {
             "types": TYPES, "requires": ["HInv(self)"], "returns": "Bool",
